@@ -6,7 +6,7 @@ MAXCP = 0x10FFFF
 
 
 class Mask:
-    __slots__ = ('iv', '_h', '_fc')
+    __slots__ = ('iv', '_h', '_fc', '_hc')
 
     def __init__(self, iv=()):
         # iv: iterable of (lo, hi) inclusive; normalised (sorted, merged)
@@ -21,6 +21,7 @@ class Mask:
         self.iv = tuple(out)
         self._h = hash(self.iv)
         self._fc = None
+        self._hc = None
 
     @classmethod
     def of(cls, chars):
@@ -59,9 +60,27 @@ class Mask:
     __or__ = union
 
     def inter(self, o):
+        a, b = self.iv, o.iv
+        if len(a) > len(b):
+            a, b = b, a
+        if not a:
+            return EMPTY if 'EMPTY' in globals() else Mask()
+        if len(b) > 8 * len(a):
+            # few intervals against many: bisect into the long list
+            import bisect
+            his = o._his() if b is o.iv else self._his()
+            out = []
+            for lo, hi in a:
+                j = bisect.bisect_left(his, lo)
+                while j < len(b) and b[j][0] <= hi:
+                    l2 = max(lo, b[j][0])
+                    h2 = min(hi, b[j][1])
+                    if l2 <= h2:
+                        out.append((l2, h2))
+                    j += 1
+            return Mask(out)
         out = []
         i = j = 0
-        a, b = self.iv, o.iv
         while i < len(a) and j < len(b):
             lo = max(a[i][0], b[j][0])
             hi = min(a[i][1], b[j][1])
@@ -72,6 +91,13 @@ class Mask:
             else:
                 j += 1
         return Mask(out)
+
+    def _his(self):
+        h = self._hc
+        if h is None:
+            h = self._hc = [x[1] for x in self.iv]
+        return h
+
     __and__ = inter
 
     def neg(self, top=MAXCP):
